@@ -147,8 +147,8 @@ def make_mutants(per_function, seed, only):
                 continue
             orig_f = ast.unparse(func).split('\n')
             new_f = new_func_src.split('\n')
-            diffline = next((b for a, b in zip(orig_f, new_f) if a != b), '?')
-            out.append({'anchor': anchor, 'props': props, 'kind': kind, 'site': idx, 'path': os.path.relpath(path, REPO), 'src': new_src, 'line': diffline.strip()[:140]})
+            diffline = next(('%s  <=  %s' % (b.strip(), a.strip()) for a, b in zip(orig_f, new_f) if a != b), '?')
+            out.append({'anchor': anchor, 'props': props, 'kind': kind, 'site': idx, 'path': os.path.relpath(path, REPO), 'src': new_src, 'line': diffline[:200]})
     return out
 
 
@@ -166,7 +166,7 @@ def evaluate(mut, n):
             suite_ok = t.returncode == 0
         except subprocess.TimeoutExpired:
             suite_ok = False
-        res = {k: mut[k] for k in ('anchor', 'props', 'kind', 'line')}
+        res = {k: mut[k] for k in ('anchor', 'props', 'kind', 'line', 'site')}
         if not suite_ok:
             res['verdict'] = 'killed-by-suite'
             return res
@@ -198,9 +198,15 @@ def main():
     ap.add_argument('--seed', type=int, default=0)
     ap.add_argument('--only', default='')
     ap.add_argument('--out', default='mutation-report.json')
+    ap.add_argument('--recheck', help='previous report: re-run its survivors against ALL checks')
     args = ap.parse_args()
     only = set(x for x in args.only.split(',') if x)
     muts = make_mutants(args.per_function, args.seed, only)
+    if args.recheck:
+        prev = json.load(open(args.recheck))
+        surv = {(r['anchor'], r['kind'], r['line'].split('  <=  ')[0]) for r in prev if r['verdict'] in ('SURVIVED', 'inconclusive')}
+        allprops = ['C%02d' % i for i in range(1, 21)]
+        muts = [dict(m, props=[p for p in allprops if p not in m['props']]) for m in muts if (m['anchor'], m['kind'], m['line'].split('  <=  ')[0]) in surv]
     print('mutants:', len(muts), flush=True)
     results = []
     with concurrent.futures.ThreadPoolExecutor(args.jobs) as pool:
